@@ -63,9 +63,11 @@ def translate(scale: Unit, zero: Quantity) -> None:
 
 def _forget_cached_conversions() -> None:
     """Plans and paths are memoized, including the ones that could not be found, so
-    they must be recomputed whenever a new equivalence is declared."""
-    _plan_conversion.cache_clear()
+    they must be recomputed whenever a new equivalence is declared.  Paths are
+    forgotten before the plans built from them, so that a conversion made by another
+    thread in between cannot memoize a new plan over a stale path."""
     _find_path.cache_clear()
+    _plan_conversion.cache_clear()
 
 
 class ConversionNotFound(ValueError):
